@@ -2,7 +2,7 @@ import HapVerif.Model.SecureFrame
 import HapVerif.Model.Crypto.Real
 
 namespace HapVerif.Drv.SecureFrame
-open HapVerif HapVerif.SecureFrame HapVerif.Crypto
+open HapVerif HapVerif.SecureFrame HapVerif.RealCrypto
 
 /-- `PACK_NONCE(counter)` = struct "<LQ" (0, counter) -/
 def nonce (c : Nat) : Bytes := natToLe 4 0 ++ natToLe 8 c
